@@ -569,101 +569,21 @@ func lookupOf(v ssa.Value) *ssa.Lookup {
 // r025: preconditions bind to `old`.
 func r025(c *an.Ctx) {
 	const rule = "R02.5"
-	fn := mustFunc(c, rule, resPkg, "WriteRequest", "changeFn")
-	if fn == nil {
+	f := changeFnFacts(c, rule)
+	if f == nil {
 		return
 	}
-	if len(fn.AnonFuncs) != 1 {
-		c.Unk(rule, "WriteRequest.changeFn|closure", fn.Pos(), fmt.Sprintf("expected changeFn to return one function literal, found %d", len(fn.AnonFuncs)))
-		return
-	}
-	cl := fn.AnonFuncs[0]
-	c.SawFunc(an.FuncName(cl))
-	if len(cl.Params) < 2 {
-		c.Unk(rule, "WriteRequest.changeFn|closure", cl.Pos(), "closure does not have (old, dst) parameters")
-		return
-	}
-	old := cl.Params[0]
 	name := "(pkg/resource.WriteRequest).changeFn$1"
-	nEq, nChk := 0, 0
-	an.Instrs(cl, func(in ssa.Instruction) {
-		call, ok := in.(*ssa.Call)
-		if !ok {
-			return
-		}
-		switch {
-		case an.CalleeName(call) == "google.golang.org/protobuf/proto.Equal":
-			nEq++
-			usesOld := call.Call.Args[0] == old || call.Call.Args[1] == old
-			var other ssa.Value = call.Call.Args[1]
-			if call.Call.Args[1] == old {
-				other = call.Call.Args[0]
-			}
-			_, _, f, isF := an.FieldOf(other)
-			c.Check(usesOld && isF && f == "expectedValue", rule, name+"|expected value compares old", call.Pos(),
-				"proto.Equal(old, wr.expectedValue)", "the expected-value comparison does not compare parameter `old` with the configured expected value")
-		case an.CalleeName(call) == "dynamic":
-			if _, _, f, ok := an.FieldOf(call.Call.Value); ok && f == "expectedCheck" {
-				nChk++
-				c.Check(len(call.Call.Args) == 1 && call.Call.Args[0] == old, rule, name+"|expected check sees old", call.Pos(),
-					"expectedCheck(old)", "expectedCheck is not evaluated on parameter `old` (the snapshot that GetAndUpdate re-validates)")
-			}
-		}
-	})
-	if nEq == 0 {
-		c.Bad(rule, name+"|expected value compares old", cl.Pos(), "no proto.Equal against expectedValue in the change function: WithExpectedValue has no effect")
-	}
-	if nChk == 0 {
-		c.Bad(rule, name+"|expected check sees old", cl.Pos(), "expectedCheck is never invoked in the change function: WithExpectedCheck has no effect")
-	}
-	// failure of either precondition returns a non-nil error before Merge
-	var merge ssa.Instruction
-	an.Instrs(cl, func(in ssa.Instruction) {
-		if an.IsCallTo(in, "(*"+an.ModulePath+"/pkg/masks.FieldUpdater).Merge") {
-			merge = in
-		}
-	})
-	if merge == nil {
-		c.Unk(rule, name+"|merge", cl.Pos(), "no FieldUpdater.Merge call in the change function")
+	if f.undec != "" {
+		c.Unk(rule, name+"|decision table", f.cl.Pos(), f.undec)
 		return
 	}
-	okGuard := 0
-	for _, e := range an.GuardingEdges(merge) {
-		switch x := e.If.Cond.(type) {
-		case *ssa.Call:
-			if an.CalleeName(x) == "google.golang.org/protobuf/proto.Equal" && e.Branch {
-				okGuard++
-			}
-		}
+	for _, t := range []struct{ clause, key, msg string }{
+		{"expected value", "expected value compares old", "the expected-value comparison does not compare parameter `old` (the snapshot that GetAndUpdate re-validates) with the configured expected value, first, failing the write on a mismatch"},
+		{"expected check", "expected check sees old", "expectedCheck is not evaluated on parameter `old` (the snapshot that GetAndUpdate re-validates), failing the write on an error"},
+		{"precondition stops", "a failed precondition stops the write", "Merge or an interceptor still runs after a failed precondition"},
+	} {
+		why, isBad := f.bad[t.clause]
+		c.Check(!isBad, rule, name+"|"+t.key, f.cl.Pos(), "", t.msg+": "+why)
 	}
-	// Merge must be unreachable from the failing edges: check by path search
-	failing := 0
-	an.Instrs(cl, func(in ssa.Instruction) {
-		iff, ok := in.(*ssa.If)
-		if !ok {
-			return
-		}
-		var failEdge *an.CondEdge
-		if call, ok := iff.Cond.(*ssa.Call); ok && an.CalleeName(call) == "google.golang.org/protobuf/proto.Equal" {
-			failEdge = &an.CondEdge{If: iff, Branch: false}
-		}
-		if v, trueMeansNil, ok := an.NilTest(iff.Cond); ok && an.IsErrorType(v.Type()) {
-			failEdge = &an.CondEdge{If: iff, Branch: !trueMeansNil}
-		}
-		if failEdge == nil {
-			return
-		}
-		failing++
-		tgt := failEdge.Target()
-		reach := false
-		if len(tgt.Instrs) > 0 {
-			first := tgt.Instrs[0]
-			if first == merge || an.Reaches(first, merge) {
-				reach = true
-			}
-		}
-		c.Check(!reach, rule, fmt.Sprintf("%s|failed precondition #%d stops the write", name, failing), iff.Pos(),
-			"the failing edge cannot reach Merge", "Merge is reachable after a failed precondition")
-	})
-	_ = okGuard
 }
